@@ -68,6 +68,10 @@ def replay(prop, res, f, repo, index, outbase, gen, sp, max_n=3, timeout=240):
     target = ent.get('parent', unit) if '__loop' in unit else unit
     while '__loop' in target and index['functions'].get(target, {}).get('parent'):
         target = index['functions'][target]['parent']
+    if '__loop' in target:
+        # the outlined loop no longer exists in this extraction (the code's loop structure changed): its
+        # enclosing function is the name up to the suffix
+        target = re.sub(r'(__loop\d+)+$', '', target)
     m_edges = re.match(r'^(L[DU]G_\w+?)_Edges(_EIt)?__(\w+)$', target)
     if m_edges:
         return replay_edges(prop, res, f, repo, index, outbase, gen, sp, m_edges, max_n, timeout)
